@@ -307,6 +307,16 @@ func (s *Sim) step(a Action) {
 		s.mstep("krep", nil, func() { s.doKRep(a.KRep) })
 	case "armburst":
 		s.armed = a.KRep
+	case "armans":
+		// an SMF's answer that reaches the socket while the event loop is in the middle
+		// of a turn (waiting for the N-th data-plane reply from now)
+		if a.Ans != nil {
+			c := a
+			if c.N < 1 {
+				c.N = 1
+			}
+			s.armedAns = &c
+		}
 	case "kbuf":
 		if a.KBuf != nil {
 			s.mstep("kbuf", nil, func() { s.doKBuf(a.KBuf) })
@@ -418,6 +428,32 @@ func (s *Sim) answer(actIdx int, a *AnsIntent) {
 	}
 	u := open[a.Idx%len(open)]
 	s.sendAnswer(actIdx, u, a.Mode)
+}
+
+func (s *Sim) injectAnswerMidTurn(a *Action) {
+	var open []*UpReq
+	for _, u := range s.ansQ {
+		if !u.AnsTried {
+			open = append(open, u)
+		}
+	}
+	if len(open) == 0 {
+		return
+	}
+	idx := a.Ans.Idx
+	if idx < 0 {
+		idx = -idx
+	}
+	u := open[idx%len(open)]
+	u.AnsTried = true
+	pm := &PMsg{Type: mtSessReportRsp, HasSEID: true, Seq: u.Seq, IEs: []TLV{tlv(ieCause, causeAccepted)}}
+	pm.SEID = s.model.upSEIDFor(u.CPSEID, u.Dst)
+	if pm.SEID == 0 {
+		pm.SEID = 0x7ffd0000
+	}
+	s.fired("n4.midturn", 1)
+	s.logEvent("n4 in (mid-turn answer) seq=%d", u.Seq)
+	s.n4.inject(pm.Marshal(), udpAddr(u.Dst))
 }
 
 func (s *Sim) sendAnswer(actIdx int, u *UpReq, mode string) {
